@@ -4,11 +4,27 @@ From Coercion.Base Require Import Plan.
 From Coercion.Attempts Require Import ActionRun ActionAuto ActionRunProofs ActionAutoProofs.
 Import ListNotations.
 
-Lemma is_final_iff o : is_final o = true <-> (o = OOk \/ o = OPerm \/ o = OWrongType).
-Proof. destruct o; cbn; split; intros H; try reflexivity; try discriminate; auto; destruct H as [H|[H|H]]; discriminate. Qed.
+(* the outcomes after which the action must not be invoked again, spelled out: a wrong-typed response whatever
+   the error; otherwise no error (success) or a permanent error *)
+Definition final_outcome (o : outcome) : Prop :=
+  match o with
+  | ORet PBad _ => True
+  | ORet _ PNoErr => True
+  | ORet _ PPerm => True
+  | ORet _ PTrans | OOverrun => False
+  end.
 
-Lemma not_final_iff o : is_final o = false <-> (o = OErr \/ o = OOverrun).
-Proof. destruct o; cbn; split; intros H; try reflexivity; try discriminate; auto; destruct H as [H|H]; discriminate. Qed.
+Definition retryable_outcome (o : outcome) : Prop :=
+  match o with
+  | OOverrun | ORet PNil PTrans | ORet PGood PTrans => True
+  | _ => False
+  end.
+
+Lemma is_final_iff o : is_final o = true <-> final_outcome o.
+Proof. destruct o as [|[] []]; cbn; split; intros H; try reflexivity; try discriminate; try exact I; contradiction. Qed.
+
+Lemma not_final_iff o : is_final o = false <-> retryable_outcome o.
+Proof. destruct o as [|[] []]; cbn; split; intros H; try reflexivity; try discriminate; try exact I; contradiction. Qed.
 
 Lemma thm_calls_bounded retries script :
   1 <= w_calls (run_action retries script) /\ w_calls (run_action retries script) <= retries + 1.
@@ -16,15 +32,25 @@ Proof. split; [apply calls_positive|rewrite Nat.add_1_r; apply calls_bounded]. Q
 
 Lemma thm_stops retries script i :
   i < w_calls (run_action retries script) ->
-  (script i = OOk \/ script i = OPerm \/ script i = OWrongType) ->
+  match script i with
+  | ORet PBad _ => True            (* a wrong-typed response, whatever the error *)
+  | ORet _ PNoErr => True          (* success: no error, type ok (or nil response) *)
+  | ORet _ PPerm => True           (* a permanent error *)
+  | ORet _ PTrans | OOverrun => False
+  end ->
   w_calls (run_action retries script) = i + 1.
 Proof. intros Hi Hf. rewrite Nat.add_1_r. apply stops_after_final; [exact Hi|apply is_final_iff; exact Hf]. Qed.
 
 Lemma thm_retries_used retries script :
   w_calls (run_action retries script) < retries + 1 ->
-  let o := script (w_calls (run_action retries script) - 1) in o = OOk \/ o = OPerm \/ o = OWrongType.
+  match script (w_calls (run_action retries script) - 1) with
+  | ORet PBad _ => True
+  | ORet _ PNoErr => True
+  | ORet _ PPerm => True
+  | ORet _ PTrans | OOverrun => False
+  end.
 Proof.
-  intros H. cbn zeta. apply is_final_iff. rewrite Nat.sub_1_r. apply gives_up_only_when_exhausted. lia.
+  intros H. apply is_final_iff. rewrite Nat.sub_1_r. apply gives_up_only_when_exhausted. lia.
 Qed.
 
 Lemma thm_all_recorded retries script :
@@ -33,11 +59,11 @@ Lemma thm_all_recorded retries script :
   forall i, i < w_calls w ->
     exists a, nth_error (w_attempts w) i = Some a /\
       match script i with
-      | OOk => ar_resp a = RGood i /\ ar_err a = ENone
-      | OErr => ar_resp a = RNone /\ ar_err a = EPlug i false
-      | OPerm => ar_resp a = RNone /\ ar_err a = EPlug i true
-      | OWrongType => ar_resp a = RNone /\ ar_err a = EEngine true
       | OOverrun => ar_resp a = RNone /\ ar_err a = EEngine false
+      | ORet PBad _ => ar_resp a = RNone /\ ar_err a = EEngine true
+      | ORet rs er =>
+          ar_resp a = match rs with PGood => RGood i | _ => RNone end /\
+          ar_err a = match er with PNoErr => ENone | PTrans => EPlug i false | PPerm => EPlug i true end
       end /\
       1 <= ar_start a /\ ar_start a <= ar_end a /\
       nth_error (w_ctx w) i = Some (match script i with OOverrun => true | _ => false end).
@@ -45,15 +71,19 @@ Proof.
   destruct (all_recorded retries script) as (H1 & H2 & H3). cbn zeta. split; [exact H1|]. split; [exact H2|].
   intros i Hi. destruct (H3 i Hi) as (a & Ha & Hr & He & Hs & Ht & Hc).
   exists a. split; [exact Ha|]. split.
-  - rewrite Hr, He. destruct (script i); cbn; split; reflexivity.
+  - rewrite Hr, He. destruct (script i) as [|[] []]; cbn; split; reflexivity.
   - split; [exact Hs|]. split; [exact Ht|]. rewrite Hc. destruct (script i); reflexivity.
 Qed.
+
+Lemma rec_err_none i o : rec_err i o = ENone <-> is_ok o = true.
+Proof. destruct o as [|[] []]; cbn; split; congruence. Qed.
 
 Lemma thm_final_status retries script :
   let w := run_action retries script in
   (w_status w = Completed \/ w_status w = Failed) /\
   (forall a, nth_error (w_attempts w) (w_calls w - 1) = Some a -> (w_status w = Completed <-> ar_err a = ENone)) /\
-  ((forall i, i <= retries -> script i = OErr \/ script i = OOverrun) ->
+  ((forall i, i <= retries ->
+      match script i with OOverrun | ORet PNil PTrans | ORet PGood PTrans => True | _ => False end) ->
      w_status w = Failed /\ w_calls w = retries + 1 /\ length (w_attempts w) = retries + 1).
 Proof.
   destruct (final_status retries script) as (H1 & H2 & H3).
@@ -63,8 +93,7 @@ Proof.
   - rewrite H1. destruct (last_ok _); auto.
   - intros a Ha. rewrite Nat.sub_1_r in Ha.
     destruct (L3 (pred (w_calls (run_action retries script))) ltac:(lia)) as (a' & Ha' & _ & He & _).
-    rewrite Ha in Ha'. inversion Ha'; subst a'. rewrite H2, He.
-    destruct (script (pred (w_calls (run_action retries script)))); cbn; split; congruence.
+    rewrite Ha in Ha'. inversion Ha'; subst a'. rewrite H2, He. symmetry. apply rec_err_none.
   - intros Hall. destruct H3 as (F1 & F2).
     + intros i Hi. apply not_final_iff. apply Hall. exact Hi.
     + split; [exact F1|]. rewrite <- L1. rewrite Nat.add_1_r. split; exact F2.
@@ -81,7 +110,7 @@ Qed.
 Lemma thm_auto_trace retries tr s :
   arun retries tr = Some s ->
   count_starts tr <= retries + 1 /\
-  (forall tr1 o tr2, tr = tr1 ++ AEnd o :: tr2 -> (o = OOk \/ o = OPerm \/ o = OWrongType) -> count_starts tr2 = 0) /\
+  (forall tr1 o tr2, tr = tr1 ++ AEnd o :: tr2 -> final_outcome o -> count_starts tr2 = 0) /\
   (forall tr1 tr2, tr = tr1 ++ AStart :: tr2 ->
      In AWRun tr1 /\ (count_starts tr1 = 0 \/ exists ok, In (AWAtt (count_starts tr1) ok) tr1) /\ count_starts tr1 <= retries) /\
   (forall tr1 v n tr2, tr = tr1 ++ AWDone v n :: tr2 -> n = count_starts tr1 /\ count_starts tr2 = 0).
@@ -119,6 +148,20 @@ Example ex_wrong_type :
   let w := run_action 4 (script_of [OWrongType] OOk) in
   w_calls w = 1 /\ w_status w = Failed /\
   map (fun a => (ar_resp a, ar_err a)) (w_attempts w) = [(RNone, EEngine true)].
+Proof. vm_compute. repeat split. Qed.
+
+(* the pairs: a wrong-typed response WITH a transient error fails the action permanently, the response is not
+   stored and the plugin's error is replaced; a well-typed response with a transient error is stored with the
+   error and retried; a nil response without error is a success *)
+Example ex_pairs :
+  let w := run_action 3 (script_of [ORet PGood PTrans; ORet PBad PTrans; OOk] OOk) in
+  w_calls w = 2 /\ w_status w = Failed /\
+  map (fun a => (ar_resp a, ar_err a)) (w_attempts w) = [(RGood 0, EPlug 0 false); (RNone, EEngine true)].
+Proof. vm_compute. repeat split. Qed.
+
+Example ex_nil_ok :
+  let w := run_action 3 (script_of [ORet PNil PNoErr] OErr) in
+  w_calls w = 1 /\ w_status w = Completed /\ map (fun a => (ar_resp a, ar_err a)) (w_attempts w) = [(RNone, ENone)].
 Proof. vm_compute. repeat split. Qed.
 
 (* the trace of DESIGN Appendix B is accepted for retries = 2 *)
